@@ -267,16 +267,85 @@ func GenTables(repo, out string) error {
 		}
 	}
 	cmpOps := map[token.Token]bool{token.LSS: true, token.LEQ: true, token.GTR: true, token.GEQ: true, token.EQL: true, token.NEQ: true}
+	// Names do not matter: inside a group of expressions (the comparisons of one function, the
+	// arguments of one call, the fields of one record) the receiver is printed `recv`, the
+	// parameters `p0, p1, …` and every other variable declared inside the function `v0, v1, …` in
+	// the order of first appearance in the group.
+	newRenamer := func(fd *ast.FuncDecl) func(ast.Node) string {
+		names := map[*ast.Object]string{}
+		if fd.Recv != nil {
+			for _, f := range fd.Recv.List {
+				for _, nm := range f.Names {
+					if nm.Obj != nil {
+						names[nm.Obj] = "recv"
+					}
+				}
+			}
+		}
+		k := 0
+		for _, f := range fd.Type.Params.List {
+			for _, nm := range f.Names {
+				if nm.Obj != nil {
+					names[nm.Obj] = fmt.Sprintf("p%d", k)
+				}
+				k++
+			}
+		}
+		nv := 0
+		return func(n ast.Node) string {
+			type saved struct {
+				id  *ast.Ident
+				old string
+			}
+			var sv []saved
+			ast.Inspect(n, func(m ast.Node) bool {
+				id, ok := m.(*ast.Ident)
+				if !ok || id.Obj == nil || id.Obj.Kind != ast.Var || id.Obj.Pos() < fd.Pos() || id.Obj.Pos() > fd.End() {
+					return true
+				}
+				nm, seen := names[id.Obj]
+				if !seen {
+					nm = fmt.Sprintf("v%d", nv)
+					nv++
+					names[id.Obj] = nm
+				}
+				sv = append(sv, saved{id, id.Name})
+				id.Name = nm
+				return true
+			})
+			out := txt(n)
+			for _, x := range sv {
+				x.id.Name = x.old
+			}
+			return out
+		}
+	}
 	for _, fn := range []string{"Compare", "lengthOrZero", "CompareWeighted", "CompareTipIndexes", "FindEdge"} {
 		fd := funcs[fn]
 		if fd == nil {
 			return fmt.Errorf("c08: function %s not found", fn)
 		}
+		cmpName := newRenamer(fd)
+		opnd := func(e ast.Expr) string {
+			neg := false
+			x := e
+			if u, ok := x.(*ast.UnaryExpr); ok && u.Op == token.SUB {
+				neg, x = true, u.X
+			}
+			if l, ok := x.(*ast.BasicLit); ok && l.Kind == token.INT {
+				v := l.Value
+				if neg {
+					v = "-" + v
+				}
+				return "(.lit (" + v + "))"
+			}
+			return "(.var " + q(cmpName(e)) + ")"
+		}
 		ast.Inspect(fd.Body, func(n ast.Node) bool {
 			switch x := n.(type) {
 			case *ast.BinaryExpr:
 				if cmpOps[x.Op] && txt(x.X) != "nil" && txt(x.Y) != "nil" {
-					comparisons = append(comparisons, fmt.Sprintf("(%s, %s)", q(fn), q(txt(x))))
+					comparisons = append(comparisons, fmt.Sprintf("⟨%s, %s, %s, %s⟩", q(fn), opnd(x.X), q(x.Op.String()), opnd(x.Y)))
 				}
 			case *ast.CallExpr:
 				name := ""
@@ -287,9 +356,10 @@ func GenTables(repo, out string) error {
 					name = f.Sel.Name
 				}
 				if (fn == "Compare" || fn == "CompareWeighted") && (name == "NewEdgeIndex" || name == "PutEdgeValue" || name == "Value") {
+					ren := newRenamer(fd)
 					a := make([]string, len(x.Args))
 					for i, e := range x.Args {
-						a[i] = txt(e)
+						a[i] = ren(e)
 					}
 					if name == "NewEdgeIndex" {
 						a = a[len(a)-1:] // the load factor (the initial capacity is not something the model depends on)
@@ -300,27 +370,20 @@ func GenTables(repo, out string) error {
 				tn := txt(x.Type)
 				fields := structs[tn]
 				if (tn == "BipartitionStats" || tn == "WeightedBipartitionStats") && len(fields) > 0 {
-					var prs []string
+					// (field, expression) in the declaration order of the fields, positional or keyed
+					vals := map[string]ast.Expr{}
 					for i, e := range x.Elts {
 						if kv, ok := e.(*ast.KeyValueExpr); ok {
-							prs = append(prs, fmt.Sprintf("(%s, %s)", q(txt(kv.Key)), q(txt(kv.Value))))
+							vals[txt(kv.Key)] = kv.Value
 						} else if i < len(fields) {
-							prs = append(prs, fmt.Sprintf("(%s, %s)", q(fields[i]), q(txt(e))))
+							vals[fields[i]] = e
 						}
 					}
-					// keyed literals are listed in the declaration order of the fields
-					if len(x.Elts) > 0 {
-						if _, keyed := x.Elts[0].(*ast.KeyValueExpr); keyed {
-							var ord []string
-							for _, f := range fields {
-								for _, e := range x.Elts {
-									kv := e.(*ast.KeyValueExpr)
-									if txt(kv.Key) == f {
-										ord = append(ord, fmt.Sprintf("(%s, %s)", q(f), q(txt(kv.Value))))
-									}
-								}
-							}
-							prs = ord
+					ren := newRenamer(fd)
+					var prs []string
+					for _, f := range fields {
+						if e, ok := vals[f]; ok {
+							prs = append(prs, fmt.Sprintf("(%s, %s)", q(f), q(ren(e))))
 						}
 					}
 					records = append(records, fmt.Sprintf("(%s, [%s])", q(fn), strings.Join(prs, ", ")))
@@ -338,7 +401,7 @@ func GenTables(repo, out string) error {
 	}
 	list("flags", "List FlagRow", flags)
 	list("events", "List Event", events)
-	list("comparisons", "List (String × String)", comparisons)
+	list("comparisons", "List Cmp", comparisons)
 	list("calls", "List (String × String × List String)", calls)
 	list("records", "List (String × List (String × String))", records)
 	list("consts", "List (String × String)", consts)
